@@ -6,6 +6,7 @@ import HotstuffModel.Driver.Store
 import HotstuffModel.Driver.QuorumWaiter
 import HotstuffModel.Driver.ReliableSender
 import HotstuffModel.Driver.BatchMaker
+import HotstuffModel.Driver.MempoolSync
 import HotstuffModel.Model.Committee
 /-
 Model driver: one request per line on stdin (an s-expression), one answer line on stdout.
@@ -34,6 +35,7 @@ structure DState where
   qw : QWState := {}
   rs : RSState := {}
   bm : BMState := {}
+  ms : MSState := {}
 
 def dispatch (st : DState) (e : Sexp) : DState × Sexp :=
   match handlePure e with
@@ -53,6 +55,9 @@ def dispatch (st : DState) (e : Sexp) : DState × Sexp :=
   | none =>
   match stepRS st.rs e with
   | some (s', r) => ({ st with rs := s' }, r)
+  | none =>
+  match stepMS st.ms e with
+  | some (s', r) => ({ st with ms := s' }, r)
   | none =>
   match handleUnit e with
   | some r => (st, r)
